@@ -310,9 +310,43 @@ def oracle_cell(cfg, obj, call, n, b, rows, in_shape):
             {'class': cfg.name.split('[')[0], 'call': 'log_prob', 'context': R, 'symptom': val if kind == 'err' else 'shape'})
 
 
+def _oracle_fresh_draws(ctx, cfg, obj):
+    """n draws are n draws: the batches of a batched sample, and the results of two successive calls, are separate tensors holding
+    separate draws (continuous distributions: no two draws coincide; a result kept by the caller is not overwritten by the next call)"""
+    if not cfg.sample_implemented or 'Bernoulli' in cfg.name or (cfg.name.startswith('MADEMoG') and not cfg.supports_ctx):
+        return
+    for rows in (None, 2):
+        if (rows is None and (cfg.needs_ctx or cfg.name.startswith('MADEMoG'))) or (rows is not None and not cfg.supports_ctx):
+            continue
+        c = mk_ctx(cfg, rows)
+        cls = cfg.name.split('[')[0]
+        try:
+            with torch.no_grad():
+                torch.manual_seed(ctx.seed + 181)
+                s = obj.sample(12, context=c, batch_size=4)
+                flat = s.reshape(-1, int(torch.tensor(cfg.event).prod())) if rows is None else s.reshape(rows * 12, -1)
+                ndist = len({tuple(r) for r in flat.tolist()})
+                if list(s.shape[:1 if rows is None else 2]) == ([12] if rows is None else [rows, 12]) and ndist < flat.shape[0]:
+                    ctx.fail('sample(12, batch_size=4) of %s returned only %d distinct draws out of %d (batches repeat each other)' % (cfg.name, ndist, flat.shape[0]),
+                             {'cfg': cfg.name, 'call': 'sample/distinct', 'n': 12, 'b': 4, 'ctx_rows': rows, 'seed': ctx.seed + 181},
+                             match={'class': cls, 'symptom': 'repeated-draws'})
+                    return
+                a = obj.sample(5, context=c)
+                a0 = a.clone()
+                b = obj.sample(5, context=c)
+                if not torch.equal(a, a0) or torch.equal(a, b):
+                    ctx.fail('two successive sample(5) calls of %s: the first result %s' % (cfg.name, 'was overwritten by the second call' if not torch.equal(a, a0) else 'equals the second'),
+                             {'cfg': cfg.name, 'call': 'sample/successive', 'n': 5, 'ctx_rows': rows, 'seed': ctx.seed + 181},
+                             match={'class': cls, 'symptom': 'aliased-draws'})
+                    return
+        except Exception:
+            return
+
+
 def oracle_values(ctx, cfg, obj):
     """batching must not change the distribution: with a strongly context-dependent conditional, block i of a batched
     sample must follow context row i (a layout mix-up that keeps the shape shows up as swapped block means)"""
+    _oracle_fresh_draws(ctx, cfg, obj)
     if not (cfg.name.startswith('ConditionalDiagonalNormal') and cfg.event == [3]):
         return
     rows = 3
